@@ -281,7 +281,13 @@ class PandasModelBase(
         res = numpy.where(cond, a, b)
         bad_posns = self.bad_column_positions(cond)
         if numpy.any(bad_posns):
-            res[bad_posns] = None
+            # make room for a missing value whatever the type of the branches
+            if res.dtype.kind in "iuf":
+                res = res.astype(float)
+                res[bad_posns] = numpy.nan
+            else:
+                res = res.astype(object)
+                res[bad_posns] = None
         return res
 
     def _populate_impl_map(self) -> Dict[str, Callable]:
